@@ -41,7 +41,7 @@ func (s *scBuilder) empty(n int) {
 	}
 }
 
-var scenarioNames = []string{"govupdate", "alleg2", "govexpire", "stakecycle"}
+var scenarioNames = []string{"govupdate", "alleg2", "govexpire", "stakecycle", "olvmmix"}
 
 func scenarioHistory(name string, w *World) *History {
 	s := &scBuilder{h: &History{Name: name}}
@@ -121,6 +121,23 @@ func scenarioHistory(name string, w *World) *History {
 		s.empty(2)
 		s.block([][]byte{txWithdraw(e0, oltAmt("500"), s.memo()), txWithdrawReward(v1, oltAmt("1000"), s.memo())}, "withdraw", "withdraw validator reward")
 		s.empty(4)
+	case "olvmmix":
+		// native and OLVM transactions touching the same accounts inside one block, with a
+		// failing OLVM transaction (nonce ahead) in front, a reverting creation, and re-funding
+		e0, e1 := w.Eth[0], w.Eth[1]
+		a0, a1 := e0.Addr, e1.Addr
+		s.block([][]byte{txOLVM(e0, &a1, 0, "1000000000000", 30000, nil), txSend(u0, a0, oltAmt("7000000000000"), s.memo())}, "olvm transfer", "send")
+		s.block([][]byte{
+			txOLVM(e0, &a1, 5, "1000000000000", 30000, nil), // nonce ahead: fails after loading the sender
+			txSend(u1, a0, oltAmt("500000000000000000000"), s.memo()),
+			txOLVM(e0, &u2.Addr, 1, "2000000000000", 30000, nil),
+			txOLVM(e1, nil, 0, "0", 200000, c17InitRevert),
+			txSend(u2, a1, oltAmt("3000000000000"), s.memo()),
+			txOLVM(e1, &a0, 1, "4000000000000", 30000, nil),
+		}, "olvmgap nonce ahead", "send", "olvm transfer", "olvmcreate reverting", "send", "olvm transfer")
+		s.empty(1)
+		s.block([][]byte{txOLVM(e1, nil, 2, "0", 200000, c17InitStore), txOLVM(e0, &a1, 2, "1", 20000, nil), txOLVM(e0, &a1, 2, "1", 30000, nil)}, "olvmcreate", "olvm lowgas", "olvm transfer")
+		s.empty(2)
 	default:
 		panic("unknown scenario " + name)
 	}
